@@ -128,9 +128,15 @@ type c20Hop struct {
 	kind     byte     // 'h' or 'g'
 	existing []string // pre-existing header value(s); nil = absent
 	via      int      // which real entry point performs the hop
+	stale    string   // non-empty: the receiving side's context already holds this identifier
 }
 
 func (h c20Hop) String() string {
+	if h.stale != "" {
+		g := h
+		g.stale = ""
+		return g.String() + "!" + hx(h.stale)
+	}
 	if h.kind == 'h' {
 		if len(h.existing) == 0 {
 			return "h:-"
@@ -159,6 +165,9 @@ func c20RunHop(ctx context.Context, h c20Hop) (context.Context, error) {
 		// the "wire": a new request carrying only the headers
 		req2 := httptest.NewRequest("GET", "http://example/", nil)
 		req2.Header = req.Header.Clone()
+		if h.stale != "" {
+			req2 = req2.WithContext(user.InjectOrgID(req2.Context(), h.stale))
+		}
 		switch h.via % 3 {
 		case 0:
 			_, c, err := user.ExtractOrgIDFromHTTPRequest(req2)
@@ -203,7 +212,11 @@ func c20RunHop(ctx context.Context, h c20Hop) (context.Context, error) {
 	}
 	md, _ := metadata.FromOutgoingContext(out)
 	// the "wire": incoming context on the server has only the metadata
-	in := metadata.NewIncomingContext(context.Background(), md.Copy())
+	recv := context.Background()
+	if h.stale != "" {
+		recv = user.InjectOrgID(recv, h.stale)
+	}
+	in := metadata.NewIncomingContext(recv, md.Copy())
 	if h.via%4 < 2 {
 		_, c, err := user.ExtractFromGRPCRequest(in)
 		return c, err
@@ -318,6 +331,9 @@ func runC20(e *env) {
 						h.existing = []string{*id, *id}
 					}
 				}
+			}
+			if r2.chance(1, 5) {
+				h.stale = pick(r2, []string{"receiver-own-id", "other", "a"})
 			}
 			hops[j] = h
 		}
